@@ -2,17 +2,22 @@
 Model: coq/Model/C12_Divide.v; theorems: coq/Props/C12.v."""
 import itertools
 
+import sys
+
 from common import *  # noqa
+import c12_layout as LY
 
 PROP = "C12"
-TABLES = ["C12_Huge"]
+TABLES = ["C12_Huge", "C12_FloatProbes"]
 MODELS = [("c12", "Extract/ExC12.v", "run_C12")]
 HUGE = 1000 ** 10
 INF = None          # "max not given"
 START = 3           # offset of the write position along the split axis
 CROSS0, CROSS = 2, 7  # offset/extent across the split axis
 SPLIT_OPS = (0,)   # op 4 of run_C12 is the pinned (pre-8a80803) division; no registered path uses it
-OPNAME = {0: "split", 1: "sum", 2: "max", 3: "take", 4: "split", 5: "multi-render", 6: "split-report", 7: "merge-dimensions", 9: "window-preferred"}
+OPNAME = {0: "split", 1: "sum", 2: "max", 3: "take", 4: "split", 5: "multi-render", 6: "split-report", 7: "merge-dimensions", 9: "window-preferred",
+          10: "tree-write", 11: "tree-report", 12: "align-padding-assigned"}
+LAYOUT_OPS = (10, 11, 12)   # nested layouts: harness/c12_layout.py, coq/Model/C12_Layout.v
 ALIGN_NAMES = {0: "start(TOP/LEFT)", 1: "CENTER", 2: "end(BOTTOM/RIGHT)", 3: "JUSTIFY"}
 
 
@@ -241,6 +246,10 @@ def render_once(b, orient, done, avail, start, fuel, watchdog=2.0):
     except Hang:
         info["draw"] = "hang"
         return [3], info
+    except Exception as e:                       # e.g. WritePosition's `assert width >= 0`
+        info["draw"] = "raised"
+        info["draw_exc"] = "%s: %s" % (type(e).__name__, e)
+        return [6], info
     regs, raw_regs = [], []
     for w, wp in b.log:
         if w is b.small:
@@ -294,6 +303,8 @@ def impl_split_real(case):
             with_watchdog(lambda: b.split.write_to_screen(screen, MouseHandlers(), _wp(orient, avail, start), "", False, None), 5)
         except Hang:
             return [3]
+        except Exception:
+            return [6]
         regs = []
         vis = screen.visible_windows_to_write_positions
         for w in b.all:
@@ -618,6 +629,8 @@ def oracle_split(case, res, info):
     r = info["result"]
     if any(not (0 <= d[0] <= d[2] <= d[1]) or d[3] < 0 for d in dims):
         return ("a child reported a size requirement that is not min <= preferred <= max, weight >= 0: %r" % (dims,), "child-dimension")
+    if info.get("draw") == "raised":
+        return ("write_to_screen raised %s while handing the divided sizes to the children" % info.get("draw_exc"), "draw-exception")
     if r == "hang" or info.get("draw") == "hang":
         zero = hang_expected(dims, avail)
         return ("dividing does not terminate (more than %d items drawn from the weight generator, or 2 s)" % info.get("nexts", -1),
@@ -894,12 +907,15 @@ def gen_cases(chk):
     for _ in range(1500 if thorough else 200):
         ws = [rng.choice([0, 1, 1, 2, 3, 5, 7, 10, 20]) for _ in range(rng.randint(1, 6))]
         add("take_using_weights", [3, ws, rng.choice([10, 40, 90])])
+    LY.gen_cases(chk, add)
     return cases, dist
 
 
 # --------------------------------------------------------------------------
 
 def describe_case(c):
+    if c[0] in LAYOUT_OPS:
+        return LY.describe_case(c)
     if c[0] in SPLIT_OPS:
         return "%s(children=%s, align=%s, padding=%s).%s(%d)%s" % (
             "HSplit" if c[1] == 0 else "VSplit",
@@ -929,6 +945,23 @@ def describe_case(c):
 
 
 def run_impl(c):
+    """Whatever the implementation raises while a case is driven is a verdict, never a crash of the check:
+    an exception that the per-op runner does not already classify becomes the result [7] (which no model
+    result equals) plus an oracle violation naming the exception and the input."""
+    try:
+        return _run_impl(c)
+    except Hang:
+        return [3], None, ("the implementation does not return (2 s / item budget) on this input", "hang-other")
+    except Exception as e:          # noqa: BLE001 - by design: every exception class
+        import traceback
+        tb = traceback.extract_tb(e.__traceback__)
+        where = "%s:%d" % (os.path.basename(tb[-1].filename), tb[-1].lineno) if tb else "?"
+        return [7], None, ("the implementation raised %s: %s (at %s)" % (type(e).__name__, e, where), "unexpected-exception")
+
+
+def _run_impl(c):
+    if c[0] in LAYOUT_OPS:
+        return LY.run_impl(c)
     if c[0] in SPLIT_OPS:
         res, info = impl_split(c)
         return canon_split(res), info, oracle_split(c, res, info)
@@ -994,9 +1027,9 @@ def main(tier):
         impl_results.append(res)
         nontrivial = c[0] not in SPLIT_OPS or (res[0] == 0 and any(x != 0 for x in res[1])) or res[0] in (1, 2, 3)
         chk.count_case(c, nontrivial)
-        heads = [st[0][0] for st in res] if c[0] == 5 and res and isinstance(res[0], list) and isinstance(res[0][0], list) else [res[0]]
+        heads = [st[0][0] for st in res] if c[0] in (5, 12) and res and isinstance(res[0], list) and isinstance(res[0][0], list) else [res[0]]
         for hd in heads:
-            tagname = {0: "sizes", 1: "too-small", 2: "ValueError", 3: "hang", 4: "ctor-ValueError", 5: "ctor-AssertionError"}.get(hd, "?")
+            tagname = {0: "sizes", 1: "too-small", 2: "ValueError", 3: "hang", 4: "ctor-ValueError", 5: "ctor-AssertionError", 6: "draw-exception", 7: "unexpected-exception"}.get(hd, "?")
             fams[tagname] = fams.get(tagname, 0) + 1
         if res == [3] and c[0] in SPLIT_OPS:
             hangs.append(i)
@@ -1023,6 +1056,10 @@ def main(tier):
                     chk.violation("tie", "CPython float test differs from the exact comparison below 2**53: taken=%d i*weight=%d max_weight=%d" % (tt, aa, bb),
                                   {"kind": "float-compare"}, {"taken": tt, "i_times_weight": aa, "max_weight": bb}, no_input=True)
     chk.coverage["float_compare_probes"] = 3 * nprobe
+    # the witness of C12_float_beyond_2p53_refuted replayed on CPython: 2**53 + 1 converts to 2**53
+    if (2 ** 53 < (2 ** 53 + 1) * 1 / float(1)) is not False:
+        chk.violation("tie", "CPython does not reproduce the witness of C12_float_beyond_2p53_refuted (taken=2**53, i*weight=2**53+1, max_weight=1)",
+                      {"kind": "float-compare-witness"}, {"taken": 2 ** 53, "i_times_weight": 2 ** 53 + 1, "max_weight": 1}, no_input=True)
     # hangs found through the item budget: confirm a few on the untouched generator with the plain watchdog
     confirmed = 0
     for i in hangs[:2] + (hangs[-1:] if len(hangs) > 2 else []):
@@ -1049,7 +1086,10 @@ def main(tier):
     k = 1500 if chk.tier == "thorough" else 250
     nreal = 0
     for i in chk.rng.sample(split_idx, min(k, len(split_idx))):
-        r = sx_norm(canon_split(impl_split_real(cases[i])))
+        try:
+            r = sx_norm(canon_split(impl_split_real(cases[i])))
+        except Exception as e:      # noqa: BLE001 - a crash of the real objects is a verdict too
+            r = [7, type(e).__name__]
         exp = project_nonempty(model_results[i])
         nreal += 1
         if r != exp:
@@ -1062,7 +1102,7 @@ def main(tier):
     kk = 1200 if chk.tier == "thorough" else 300
     idx = sorted(chk.rng.sample(range(len(cases)), min(kk, len(cases))))
     pairs = [(cases[i], impl_results[i]) for i in idx]
-    bad, logs = vm_crosscheck(PROP, "run_C12", "Model.C12_Divide", pairs)
+    bad, logs = vm_crosscheck(PROP, "run_C12", "Model.C12_Layout", pairs)
     chk.coverage["vm_compute_crosschecked"] = len(pairs)
     model_bad = set(i for i, (a, m) in enumerate(zip(impl_results, model_results)) if sx_norm(a) != m)
     vm_bad = set(idx[b] for b in bad if isinstance(b, int))
@@ -1079,12 +1119,15 @@ def main(tier):
                             "HSplit/VSplit (_divide_heights/_divide_widths, then write_to_screen with recording children) and on the Coq model; "
                             "exhaustive child lists over (min,pref,max) from {0,1,2,5,inf} x weight {0,1,2} x avail 0..12 x H/V (length <= 1 all, "
                             "length 2 %s, length 3 %s), random alignment/padding, random longer lists, large weights, invalid Dimension arguments, "
-                            "sum/max_layout_dimensions and take_using_weights alone; non-trivial = some child got a positive size or the result is "
+                            "sum/max_layout_dimensions and take_using_weights alone; nested HSplit/VSplit trees (exhaustive split-in-split pairs, random depth <= 3) "
+                            "drawn by write_to_screen at non-zero offsets and compared region by region, their reported dimensions, renders with align/padding/children "
+                            "assigned in between; non-trivial = some child got a positive size or the result is "
                             "too-small/ValueError/hang; distinct by hash of the case" % (
                                 "all" if chk.tier == "thorough" else "12%", "2%" if chk.tier == "thorough" else "0.12%"))
     chk.assumptions += [
         "take_using_weights compares `taken < i*weight/float(max_weight)`; the model compares taken*max_weight < i*weight exactly; proved equal for IEEE binary64 when i*weight < 2**53 and max_weight < 2**53 (C12_float_compare_exact, Flocq); CPython's int/float division and int<float comparison are assumed to be the IEEE operations (probed on this run); beyond 2**53 no agreement is claimed",
-        "self.align and self.padding of a split are not changed after construction (they are not part of the _all_children cache key)",
+        "split.align / split.padding assigned after construction are modelled as the code behaves (read on a cache miss only: C12_align_padding_from_last_miss, family align_padding_assigned_later); the stale rendering is recorded as an API observation, not as a violation of C12",
+        "nested layouts: leaves are stub containers reporting a fixed (width, height) requirement that does not depend on the width offered (a wrapping Window would); every padding/alignment/remaining-space Window records its WritePosition instead of painting",
         "a hang would be observed as: more than 2*fuel+1 items pulled from the real generator (fuel = divide_fuel, the proven per-loop bound; 4000 for the large-weight cases) or the 2 s watchdog; such cases are re-run on the untouched generator under the plain 2 s watchdog",
         "children are stub containers reporting a fixed Dimension (and real Window(height=/width=) children on a sample); get_app() is replaced by a stand-in with a controllable is_done; Window contents (C11) are outside",
         "the dimensions children report are constant during one divide call"]
@@ -1104,3 +1147,6 @@ def replay(data):
     m = run_model("c12", [case])[0]
     print("model agrees" if m == sx_norm(res) else "model differs: %r" % (m,))
     return 1 if bad else 0
+
+
+LY.bind(sys.modules[__name__])
